@@ -35,6 +35,7 @@ const ADDR_LOCK: u64 = 0x100;
 const ADDR_START: u64 = 0x104;
 const ADDR_STOP: u64 = 0x108;
 const ADDR_GAIN: u64 = 0x10c;
+const ADDR_GATE: u64 = 0x110;
 
 #[derive(Clone, Copy, PartialEq, Eq, Debug)]
 enum Sub {
@@ -49,6 +50,10 @@ enum Sub {
     AcqStart,
     AcqStop,
     ParamRead,
+    /// params access: write of another feature (the one a gated TLParamsLocked refers to)
+    GateSet(u32),
+    /// read of that feature's register (never performed by the unmodified camera)
+    GateRead,
     LoopStart,
     LoopStop,
     /// any other memory access (never expected; makes model and oracle fail loudly)
@@ -75,6 +80,8 @@ fn tok(e: &(Sub, Out)) -> String {
         Sub::AcqStart => "AS".into(),
         Sub::AcqStop => "AT".into(),
         Sub::ParamRead => "PR".into(),
+        Sub::GateSet(v) => format!("G{v}"),
+        Sub::GateRead => "GR".into(),
         Sub::LoopStart => "LS".into(),
         Sub::LoopStop => "LT".into(),
         Sub::Other => "??".into(),
@@ -98,6 +105,7 @@ struct World {
     lock: u32,
     acquiring: bool,
     gain: u32,
+    gate: u32,
     /// number of live receive loops (a permissive stream handle: it would start a second one)
     loops: u32,
     /// what `is_loop_running` answers
@@ -224,6 +232,7 @@ impl DeviceControl for FakeCtrl {
         let mut w = self.0.borrow_mut();
         let (sub, v) = match (address, buf.len()) {
             (ADDR_GAIN, 4) => (Sub::ParamRead, w.gain),
+            (ADDR_GATE, 4) => (Sub::GateRead, w.gate),
             _ => (Sub::Other, 0),
         };
         let o = w.step(sub, true);
@@ -237,6 +246,7 @@ impl DeviceControl for FakeCtrl {
         let v = if data.len() == 4 { u32::from_le_bytes([data[0], data[1], data[2], data[3]]) } else { u32::MAX };
         let sub = match (address, data.len(), v) {
             (ADDR_LOCK, 4, v) => Sub::LockSet(v),
+            (ADDR_GATE, 4, v) => Sub::GateSet(v),
             (ADDR_START, 4, 1) => Sub::AcqStart,
             (ADDR_STOP, 4, 1) => Sub::AcqStop,
             _ => Sub::Other,
@@ -245,6 +255,7 @@ impl DeviceControl for FakeCtrl {
         if o == Out::Ok {
             match sub {
                 Sub::LockSet(v) => w.lock = v,
+                Sub::GateSet(v) => w.gate = v,
                 Sub::AcqStart => w.acquiring = true,
                 Sub::AcqStop => w.acquiring = false,
                 _ => {}
@@ -361,17 +372,39 @@ struct XmlVar {
     lock: NodeVar,
     start: NodeVar,
     stop: NodeVar,
+    /// how the description restricts access to TLParamsLocked (schema-legal, rare)
+    gate: GateVar,
+}
+
+/// Access restriction on the `TLParamsLocked` feature.  `Camera` writes the node regardless
+/// (GenApi `set_value` does not consult the access mode), which is what the property demands.
+#[derive(Clone, Copy, PartialEq, Eq, Debug)]
+enum GateVar {
+    None,
+    /// `<pIsLocked>Gate</pIsLocked>`: reported read-only while Gate != 0
+    IsLocked,
+    /// `<pIsAvailable>Gate</pIsAvailable>`: reported not available while Gate == 0
+    IsAvailable,
+    /// `<ImposedAccessMode>RO</ImposedAccessMode>`: always reported read-only
+    ImposedRo,
 }
 
 impl XmlVar {
-    const FULL: XmlVar = XmlVar { parse_ok: true, lock: NodeVar::Good, start: NodeVar::Good, stop: NodeVar::Good };
+    const FULL: XmlVar =
+        XmlVar { parse_ok: true, lock: NodeVar::Good, start: NodeVar::Good, stop: NodeVar::Good, gate: GateVar::None };
     fn name(&self) -> String {
         let c = |v: NodeVar| match v {
             NodeVar::Good => 'g',
             NodeVar::Missing => 'm',
             NodeVar::WrongKind => 'w',
         };
-        format!("{}{}{}{}", if self.parse_ok { 'p' } else { 'x' }, c(self.lock), c(self.start), c(self.stop))
+        let g = match self.gate {
+            GateVar::None => "",
+            GateVar::IsLocked => "L",
+            GateVar::IsAvailable => "A",
+            GateVar::ImposedRo => "R",
+        };
+        format!("{}{}{}{}{}", if self.parse_ok { 'p' } else { 'x' }, c(self.lock), c(self.start), c(self.stop), g)
     }
     fn from_name(s: &str) -> XmlVar {
         let b = s.as_bytes();
@@ -380,7 +413,13 @@ impl XmlVar {
             b'm' => NodeVar::Missing,
             _ => NodeVar::WrongKind,
         };
-        XmlVar { parse_ok: b[0] == b'p', lock: c(b[1]), start: c(b[2]), stop: c(b[3]) }
+        let gate = match b.get(4) {
+            Some(b'L') => GateVar::IsLocked,
+            Some(b'A') => GateVar::IsAvailable,
+            Some(b'R') => GateVar::ImposedRo,
+            _ => GateVar::None,
+        };
+        XmlVar { parse_ok: b[0] == b'p', lock: c(b[1]), start: c(b[2]), stop: c(b[3]), gate }
     }
     /// what the model is told: parse ok, and per SFNC node "present with the right interface"
     fn bits(&self) -> String {
@@ -393,8 +432,9 @@ impl XmlVar {
             b(self.stop == NodeVar::Good)
         )
     }
+    /// complete description (an access restriction on TLParamsLocked does not make it defective)
     fn all_good(&self) -> bool {
-        *self == XmlVar::FULL
+        self.parse_ok && self.lock == NodeVar::Good && self.start == NodeVar::Good && self.stop == NodeVar::Good
     }
 }
 
@@ -433,8 +473,18 @@ xsi:schemaLocation="http://www.genicam.org/GenApi/Version_1_1 http://www.genicam
     s += &int_reg("AcquisitionStopReg", ADDR_STOP);
     s += &int_reg("GainReg", ADDR_GAIN);
     s += &integer("Gain", "GainReg");
+    s += &int_reg("GateReg", ADDR_GATE);
+    s += &integer("Gate", "GateReg");
     match v.lock {
-        NodeVar::Good => s += &integer("TLParamsLocked", "TLParamsLockedReg"),
+        NodeVar::Good => {
+            let restriction = match v.gate {
+                GateVar::None => "",
+                GateVar::IsLocked => "<pIsLocked>Gate</pIsLocked>",
+                GateVar::IsAvailable => "<pIsAvailable>Gate</pIsAvailable>",
+                GateVar::ImposedRo => "<ImposedAccessMode>RO</ImposedAccessMode>",
+            };
+            s += &format!(r#"<Integer Name="TLParamsLocked">{restriction}<pValue>TLParamsLockedReg</pValue></Integer>"#);
+        }
         NodeVar::WrongKind => s += &command("TLParamsLocked", "TLParamsLockedReg"),
         NodeVar::Missing => {}
     }
@@ -463,6 +513,8 @@ enum Op {
     Stop,
     Close,
     Param,
+    /// params access that WRITES another feature (`Gate`): `node.set_value(v)`
+    Gate(u32),
     /// state surgery through the public API, not a call of the property: install a context
     /// built from the device's description (`Camera::new(.., Some(ctxt), ..)` when it is the
     /// first step, `Camera::set_context` otherwise)
@@ -480,6 +532,7 @@ impl Op {
             Op::Stop => "stop".into(),
             Op::Close => "close".into(),
             Op::Param => "param".into(),
+            Op::Gate(v) => format!("gate{v}"),
             Op::Preload => "preload".into(),
             Op::Unload => "unload".into(),
         }
@@ -493,6 +546,7 @@ impl Op {
             "param" => Op::Param,
             "preload" => Op::Preload,
             "unload" => Op::Unload,
+            g if g.starts_with("gate") => Op::Gate(g[4..].parse().unwrap()),
             _ => Op::Start(s.trim_start_matches("start").parse().unwrap()),
         }
     }
@@ -555,7 +609,8 @@ struct Snap {
     strm_open: bool,
     ctxt: bool,
     /// cache entries of (TLParamsLockedReg, AcquisitionStartReg, AcquisitionStopReg, GainReg)
-    cache: [bool; 4],
+    cache: [bool; 5],
+    gate: u32,
     chan: Option<(Option<usize>, Option<usize>)>,
 }
 
@@ -563,7 +618,7 @@ impl Snap {
     fn show(&self) -> String {
         let b = |v: bool| if v { 1 } else { 0 };
         format!(
-            "R{}N{}E{}L{}A{}C{}S{}X{}K{}{}{}{}{}",
+            "R{}N{}E{}L{}A{}C{}S{}X{}K{}{}{}{}{}G{}{}",
             b(self.flag),
             self.loops,
             b(self.enabled),
@@ -576,6 +631,8 @@ impl Snap {
             b(self.cache[1]),
             b(self.cache[2]),
             b(self.cache[3]),
+            b(self.cache[4]),
+            self.gate,
             match self.chan {
                 None => "H-".to_string(),
                 Some((f, k)) => format!(
@@ -594,7 +651,7 @@ impl Snap {
 type Cam = Camera<FakeCtrl, FakeStrm, DefaultGenApiCtxt>;
 
 fn snapshot(cam: &mut Cam, w: &Rc<RefCell<World>>) -> Snap {
-    let mut cache = [false; 4];
+    let mut cache = [false; 5];
     let ctxt = cam.ctxt.is_some();
     if let Some(c) = cam.ctxt.as_mut() {
         for (i, (name, addr)) in [
@@ -602,6 +659,7 @@ fn snapshot(cam: &mut Cam, w: &Rc<RefCell<World>>) -> Snap {
             ("AcquisitionStartReg", ADDR_START),
             ("AcquisitionStopReg", ADDR_STOP),
             ("GainReg", ADDR_GAIN),
+            ("GateReg", ADDR_GATE),
         ]
         .iter()
         .enumerate()
@@ -623,6 +681,7 @@ fn snapshot(cam: &mut Cam, w: &Rc<RefCell<World>>) -> Snap {
         strm_open: w.strm_open,
         ctxt,
         cache,
+        gate: w.gate,
         chan: w.chan,
     }
 }
@@ -753,6 +812,12 @@ fn run_impl(case: &Case, xml_text: &str) -> Vec<CallOut> {
                         assert_eq!(v, 7);
                         Ok(())
                     }
+                    Op::Gate(v) => {
+                        let mut ctxt = cam.params_ctxt()?;
+                        let node = ctxt.node("Gate").unwrap().as_integer(&ctxt).unwrap();
+                        node.set_value(&mut ctxt, *v as i64)?;
+                        Ok(())
+                    }
                     Op::Preload | Op::Unload => unreachable!(),
                 })
             }
@@ -804,7 +869,9 @@ fn expected_err(e: &(Sub, Out), kind: u8) -> String {
     match (e.0, e.1) {
         (Sub::StrmOpen | Sub::StrmClose | Sub::LoopStart, _) => format!("err:Stream.{}", STRM_KINDS[k]),
         (Sub::LoopStop, _) => format!("err:Stream.{}", STOP_KINDS[k]),
-        (Sub::LockSet(_) | Sub::AcqStart | Sub::AcqStop | Sub::ParamRead | Sub::Other, _) => "err:GenApi.Device".into(),
+        (Sub::LockSet(_) | Sub::AcqStart | Sub::AcqStop | Sub::ParamRead | Sub::GateSet(_) | Sub::GateRead | Sub::Other, _) => {
+            "err:GenApi.Device".into()
+        }
         (_, Out::NotOpened) => "err:Control.NotOpened".into(),
         (_, _) => format!("err:Control.{}", CTRL_KINDS[k]),
     }
@@ -824,7 +891,10 @@ fn good(s: &Snap, xml: XmlVar) -> bool {
 
 /// a sub-operation that is not a step of the start/stop protocol
 fn non_protocol(k: Sub) -> bool {
-    matches!(k, Sub::CtrlOpen | Sub::StrmOpen | Sub::CtrlClose | Sub::StrmClose | Sub::GenApi | Sub::ParamRead)
+    matches!(
+        k,
+        Sub::CtrlOpen | Sub::StrmOpen | Sub::CtrlClose | Sub::StrmClose | Sub::GenApi | Sub::ParamRead | Sub::GateSet(_) | Sub::GateRead
+    )
 }
 
 /// Returns (kind, description) of every property clause the run violates.
@@ -1120,15 +1190,21 @@ fn main() {
         for ops in [
             vec![Op::Open, Op::Load, Op::Param, Op::Start(1), Op::Start(1), Op::Stop, Op::Param, Op::Close],
             vec![Op::Open, Op::Start(1), Op::Close],
+            vec![Op::Open, Op::Load, Op::Gate(1), Op::Start(1), Op::Gate(0), Op::Stop, Op::Start(1), Op::Gate(2), Op::Close],
             vec![Op::Open, Op::Load, Op::Start(0), Op::Close],
             vec![Op::Load, Op::Open, Op::Load, Op::Start(1), Op::Load, Op::Close, Op::Param],
         ] {
-            let case = Case { xml: XmlVar::FULL, stop_fail_kills: false, faults: vec![], ops, kind: 0 };
-            let xml = cx.xml_text(case.xml);
-            let outs = run_impl(&case, &xml);
-            println!("{}\n  {}", case.request(), answer(&outs));
-            for (k, w) in oracle(&case, &outs) {
-                println!("  ORACLE {k}: {w}");
+            for g in [GateVar::None, GateVar::IsLocked, GateVar::IsAvailable, GateVar::ImposedRo] {
+                if g != GateVar::None && !ops.iter().any(|o| matches!(o, Op::Gate(_))) {
+                    continue;
+                }
+                let case = Case { xml: XmlVar { gate: g, ..XmlVar::FULL }, stop_fail_kills: false, faults: vec![], ops: ops.clone(), kind: 0 };
+                let xml = cx.xml_text(case.xml);
+                let outs = run_impl(&case, &xml);
+                println!("{} [{}]\n  {}", case.request(), case.xml.name(), answer(&outs));
+                for (k, w) in oracle(&case, &outs) {
+                    println!("  ORACLE {k}: {w}");
+                }
             }
         }
         return;
@@ -1203,7 +1279,7 @@ fn main() {
         vars.push(XmlVar { start: v, ..XmlVar::FULL });
         vars.push(XmlVar { stop: v, ..XmlVar::FULL });
     }
-    vars.push(XmlVar { parse_ok: true, lock: NodeVar::Missing, start: NodeVar::WrongKind, stop: NodeVar::Missing });
+    vars.push(XmlVar { lock: NodeVar::Missing, start: NodeVar::WrongKind, stop: NodeVar::Missing, ..XmlVar::FULL });
     let d5 = if thorough { 5 } else { 4 };
     let mut seqs5: Vec<Vec<Op>> = vec![];
     sequences(&base5, d5, &mut |s| seqs5.push(s.to_vec()));
@@ -1236,6 +1312,26 @@ fn main() {
         }
     }
 
+    // (5c) descriptions that restrict access to TLParamsLocked (pIsLocked / pIsAvailable referring
+    //      to a feature the application can set, ImposedAccessMode RO) + params access that sets
+    //      / clears that feature before start and while streaming.  The camera must write
+    //      TLParamsLocked regardless.
+    let gated = [Op::Gate(1), Op::Gate(0), Op::Start(1), Op::Stop, Op::Close];
+    let d8 = if thorough { 5 } else { 4 };
+    let mut seqs8: Vec<Vec<Op>> = vec![];
+    sequences(&gated, d8, &mut |s| seqs8.push(s.to_vec()));
+    for g in [GateVar::IsLocked, GateVar::IsAvailable, GateVar::ImposedRo, GateVar::None] {
+        for s in &seqs8 {
+            if !s.contains(&Op::Start(1)) {
+                continue;
+            }
+            let mut ops = vec![Op::Open, Op::Load];
+            ops.extend_from_slice(s);
+            let c = Case { xml: XmlVar { gate: g, ..XmlVar::FULL }, stop_fail_kills: false, faults: vec![], ops, kind: 0 };
+            cx.with_faults(&c, false, "exhaustive-gated-TLParamsLocked");
+        }
+    }
+
     // (5b) the other error variants a handle may return (propagated unchanged)
     let d7 = if thorough { 5 } else { 4 };
     let mut seqs7: Vec<Vec<Op>> = vec![];
@@ -1260,13 +1356,11 @@ fn main() {
                 9 => Op::Start(0),
                 10..=11 => Op::Stop,
                 12..=13 => Op::Close,
-                14 => {
-                    if rng.bool() {
-                        Op::Preload
-                    } else {
-                        Op::Unload
-                    }
-                }
+                14 => match rng.below(4) {
+                    0 => Op::Preload,
+                    1 => Op::Unload,
+                    _ => Op::Gate(rng.below(3) as u32),
+                },
                 _ => Op::Param,
             })
             .collect();
@@ -1274,7 +1368,8 @@ fn main() {
         let mut faults: Vec<usize> = (0..nf).map(|_| rng.below(30) as usize).collect();
         faults.sort();
         faults.dedup();
-        let xml = if rng.chance(1, 6) { *rng.pick(&vars) } else { XmlVar::FULL };
+        let mut xml = if rng.chance(1, 6) { *rng.pick(&vars) } else { XmlVar::FULL };
+        xml.gate = *rng.pick(&[GateVar::None, GateVar::None, GateVar::IsLocked, GateVar::IsAvailable, GateVar::ImposedRo]);
         let c = Case { xml, stop_fail_kills: rng.bool(), faults, ops, kind: rng.below(6) as u8 };
         cx.one(&c, "random-deep");
     }
